@@ -320,4 +320,11 @@ def crowded (res : Res) (src : AChart) : Bool :=
     decide (a.2 < b.2) && decide (a.1.1 = b.1.1) &&
       decide (rabs (a.1.2 - b.1.2) ≤ tolAt res src a.1.2 + tolAt res src b.1.2)
 
+/-- two tempo points (of different times) closer than the resolution can tell apart: the written file may hold
+them at one position, where only one of them is in force -/
+def tempoCrowded (res : Res) (src : AChart) : Bool :=
+  let pts := lastAtTime (sortBpms src.bpms)
+  (pts.zip pts.tail).any fun p =>
+    decide (rabs (p.1.1 - p.2.1) ≤ tolAt res src p.1.1 + tolAt res src p.2.1)
+
 end Reamber.Pipeline
